@@ -322,7 +322,8 @@ def l3_path(run, mod, conv, p, T, cv, fb):
         fx = b.effect_texts()
         run.ob("L3", b.end == "fall", "convert prints every item", f"{b.end} inside the print loop", module=mod, node=b.node or lp,
                func="convert", construct="print loop cut")
-        want = [("call", f"print(' ' + binascii.hexlify({item}).decode(), end='')")] if isb else [("call", f"print({item})")]
+        # (summaries spell binascii.hexlify(b).decode() as b.hex())
+        want = [("call", f"print(' ' + {item}.hex(), end='')")] if isb else [("call", f"print({item})")]
         run.ob("L3", isb is not None and fx == want, "bytes items are printed as hex, text items as they are",
                f"the body of the print loop changed: [{label(b)}] does {fx}", module=mod, node=b.node or lp, func="convert",
                construct="print loop body")
